@@ -5,6 +5,8 @@ import (
 	"archive/zip"
 	"bytes"
 	"context"
+	"encoding/json"
+	"encoding/xml"
 	"fmt"
 	"os"
 	"path/filepath"
@@ -17,6 +19,7 @@ import (
 	"github.com/bufbuild/buf/private/pkg/app"
 	"github.com/bufbuild/buf/private/pkg/app/appcmd"
 	"github.com/bufbuild/buf/private/pkg/protoencoding"
+	"github.com/bufbuild/buf/private/pkg/thread"
 	"github.com/bufbuild/verif/simfs"
 	"github.com/bufbuild/verif/tape"
 	"google.golang.org/protobuf/proto"
@@ -49,6 +52,9 @@ type cliPlan struct {
 	v1       bool
 	workName string
 	modCfg   []string
+	// rooted[i]: module i is configured the oldest way (v1beta1): its files live below two ROOTS, r1 and r2,
+	// each of which also holds a directory of .proto files that the configuration excludes
+	rooted []bool
 }
 
 // writeCLIWorkspace lays the workspace out on disk as a v2 workspace: buf.yaml at the root, one
@@ -93,6 +99,11 @@ func (m *bsim) writeCLIWorkspace() string {
 		plan.workName = tape.Pick(m.tp, "cliworkname", []string{"buf.work.yaml", "buf.work"})
 		for range m.ws.Modules {
 			plan.modCfg = append(plan.modCfg, tape.Pick(m.tp, "climodcfg", []string{"buf.yaml", "buf.mod"}))
+			rooted := m.tp.Draw("clirooted", 2) == 1
+			plan.rooted = append(plan.rooted, rooted)
+			if rooted {
+				m.s.Probe("cli-v1beta1-module-with-two-roots")
+			}
 		}
 		m.s.Probe("cli-v1-workspace")
 	}
@@ -105,6 +116,7 @@ func (m *bsim) writeCLIWorkspace() string {
 	}
 	twinDraw := m.tp.Draw("clitwin", 2)
 	m.cliModDir = plan.modDir
+	m.cliRooted = plan.rooted
 	for variant := 0; variant < 2; variant++ {
 		root := filepath.Join(m.env.Scratch, "cli", []string{"ws", "wsB"}[variant])
 		members := m.materialiseCLIWorkspace(plan, root, variant)
@@ -159,8 +171,16 @@ func (m *bsim) materialiseCLIWorkspace(plan *cliPlan, root string, variant int) 
 		if plan.v1 {
 			fmt.Fprintf(&y, "  - %s\n", dir)
 			cfg := "version: v1\n"
+			if plan.rooted[mod.Index] {
+				cfg = "version: v1beta1\n"
+			}
 			if mod.Name != "" {
 				cfg += "name: " + mod.Name + "\n"
+			}
+			if plan.rooted[mod.Index] {
+				cfg += "build:\n  roots:\n    - r1\n    - r2\n  excludes:\n    - r1/gen\n    - r2/tmp\n"
+				items = append(items, item{dir + "/r1/gen/g" + fmt.Sprint(mod.Index) + ".proto", []byte(fmt.Sprintf("syntax = \"proto3\";\npackage zzgen.m%d;\nmessage Generated {}\n", mod.Index))})
+				items = append(items, item{dir + "/r2/tmp/t" + fmt.Sprint(mod.Index) + ".proto", []byte(fmt.Sprintf("syntax = \"proto3\";\npackage zztmp.m%d;\nmessage Scratch {}\n", mod.Index))})
 			}
 			items = append(items, item{dir + "/" + plan.modCfg[mod.Index], []byte(cfg)})
 		} else {
@@ -176,6 +196,11 @@ func (m *bsim) materialiseCLIWorkspace(plan *cliPlan, root string, variant int) 
 				tops[strings.SplitN(p, "/", 2)[0]] = true
 			} else if plan.shared && mod.Index < 2 {
 				// LICENSE / README of two modules would collide in the shared directory
+				continue
+			}
+			if plan.v1 && plan.rooted[mod.Index] && strings.HasSuffix(p, ".proto") {
+				// below one of the two roots, by top-level directory
+				items = append(items, item{dir + "/" + rootOf(p) + "/" + p, files[p]})
 				continue
 			}
 			items = append(items, item{dir + "/" + p, files[p]})
@@ -325,14 +350,14 @@ func (m *bsim) cliArgs(root string) []string {
 					tops[strings.SplitN(f.Path, "/", 2)[0]] = true
 				}
 				for _, top := range simfs.SortedKeys(tops) {
-					flags = append(flags, [2]string{"--path", filepath.Join(dir, top)})
+					flags = append(flags, [2]string{"--path", filepath.Join(dir, m.cliOnDisk(mod.Index, top))})
 				}
 			}
 			for _, p := range mod.TargetPaths {
-				flags = append(flags, [2]string{"--path", filepath.Join(dir, filepath.FromSlash(p))})
+				flags = append(flags, [2]string{"--path", filepath.Join(dir, m.cliOnDisk(mod.Index, p))})
 			}
 			for _, p := range mod.ExcludePaths {
-				flags = append(flags, [2]string{"--exclude-path", filepath.Join(dir, filepath.FromSlash(p))})
+				flags = append(flags, [2]string{"--exclude-path", filepath.Join(dir, m.cliOnDisk(mod.Index, p))})
 			}
 		}
 	}
@@ -431,8 +456,13 @@ func (m *bsim) cliPlantedError(ctx context.Context) {
 	}
 	m.cliVariant = 0
 	m.cliInputs[0], m.cliFlagRoots[0] = input, input
+	// every diagnostic format names the file by the path the user gave, and the position
+	format := tape.Pick(m.tp, "cliplantedformat", []string{"text", "json", "msvs", "junit", "github-actions", "text"})
 	var stdout, stderr bytes.Buffer
 	args := append([]string{"buf", "build", input}, m.cliArgs(root)...)
+	if format != "text" || m.tp.Draw("cliplantedformatflag", 2) == 1 {
+		args = append(args, "--error-format", format)
+	}
 	container := app.NewContainer(m.cliEnv(), strings.NewReader(""), &stdout, &stderr, args...)
 	err := appcmd.Run(ctx, container, bufcli.NewRootCommand("buf"))
 	text := stderr.String()
@@ -442,18 +472,40 @@ func (m *bsim) cliPlantedError(ctx context.Context) {
 		return
 	}
 	want := m.refErrors[0]
-	wantPrefix := fmt.Sprintf("%s:%d:%d:", filepath.Join(input, m.cliModDir[f.Module], filepath.FromSlash(want.path)), want.line, want.col)
+	external := filepath.Join(input, m.cliModDir[f.Module], m.cliOnDisk(f.Module, want.path))
+	var wanted string
+	switch format {
+	case "text":
+		wanted = fmt.Sprintf("%s:%d:%d:", external, want.line, want.col)
+	case "json":
+		quoted, _ := json.Marshal(external)
+		wanted = fmt.Sprintf(`"path":%s,"start_line":%d,"start_column":%d`, quoted, want.line, want.col)
+	case "msvs":
+		wanted = fmt.Sprintf("%s(%d,%d) : error", external, want.line, want.col)
+	case "junit":
+		// (XML-escaped; the generated names need no escaping beyond what %s gives for them here)
+		wanted = fmt.Sprintf(`name="%s"`, strings.TrimSuffix(xmlEscape(external), ".proto"))
+	case "github-actions":
+		wanted = fmt.Sprintf("::error file=%s,line=%d,col=%d", external, want.line, want.col)
+	}
 	found := false
 	for _, line := range strings.Split(text, "\n") {
-		if strings.HasPrefix(line, wantPrefix) {
+		if (format == "text" && strings.HasPrefix(line, wanted)) || (format != "text" && strings.Contains(line, wanted)) {
 			found = true
 		}
 	}
 	if !found {
-		m.violate("planted-error", "cli|path-the-user-gave", "buf build <%s>: no diagnostic starts with %s; stderr: %s", how, strings.ReplaceAll(wantPrefix, m.env.Scratch, "<scratch>"), clipText(shown))
+		m.violate("planted-error", "cli|path-the-user-gave|"+format, "buf build <%s> --error-format %s: no diagnostic with %s; stderr: %s", how, format, strings.ReplaceAll(wanted, m.env.Scratch, "<scratch>"), clipText(shown))
 	} else {
 		m.s.Probe("planted-error-located-through-the-command-line")
+		m.s.Probe("planted-error-format-" + format)
 	}
+}
+
+func xmlEscape(s string) string {
+	var b bytes.Buffer
+	_ = xml.EscapeText(&b, []byte(s))
+	return b.String()
 }
 
 func clipText(s string) string {
@@ -525,4 +577,71 @@ func (m *bsim) cliBuildFromImage(ctx context.Context) (string, bool, error) {
 	}
 	m.s.Probe("cli-image-input-with-paths")
 	return string(data), true, nil
+}
+
+// cliTwoBrokenModules: a workspace in which TWO modules fail to compile (a large one whose broken file
+// comes late, a tiny one that fails at once), linted and built several times with different numbers of
+// workers: whatever the command prints for it, it prints every time.
+func (m *bsim) cliTwoBrokenModules() {
+	root := filepath.Join(m.env.Scratch, "cli", "twobroken")
+	defer os.RemoveAll(root)
+	write := func(rel, content string) {
+		full := filepath.Join(root, filepath.FromSlash(rel))
+		if err := os.MkdirAll(filepath.Dir(full), 0o755); err != nil {
+			panic(err)
+		}
+		if err := os.WriteFile(full, []byte(content), 0o644); err != nil {
+			panic(err)
+		}
+	}
+	n := 20 + m.tp.Draw("twobroken.n", 40)
+	write("buf.yaml", "version: v2\nmodules:\n  - path: a\n  - path: b\n")
+	for i := 0; i < n; i++ {
+		body := fmt.Sprintf("syntax = \"proto3\";\npackage a.p%d;\nmessage M%d {\n  string name = 1;\n", i, i)
+		for k := 0; k < 30; k++ {
+			body += fmt.Sprintf("  int64 f%d = %d;\n", k, k+2)
+		}
+		if i == n-1 {
+			body += "  DoesNotExist broken = 100;\n"
+		}
+		write(fmt.Sprintf("a/a/f%03d.proto", i), body+"}\n")
+	}
+	write("b/b/b.proto", "syntax = \"proto3\";\npackage b;\nmessage B {\n")
+	command := tape.Pick(m.tp, "twobroken.cmd", []string{"lint", "build", "lint"})
+	var first string
+	m.s.Unhashed = true
+	defer func() { m.s.Unhashed = false }()
+	for k, par := range []int{1, 2, 8, 1, 4, 16} {
+		thread.SetParallelism(par)
+		var stdout, stderr bytes.Buffer
+		container := app.NewContainer(m.cliEnv(), strings.NewReader(""), &stdout, &stderr, "buf", command, root)
+		err := appcmd.Run(context.Background(), container, bufcli.NewRootCommand("buf"))
+		text := strings.ReplaceAll(fmt.Sprintf("%s\n--- stderr\n%s\n--- failed=%v", stdout.String(), stderr.String(), err != nil), m.env.Scratch, "<scratch>")
+		if err == nil {
+			m.violate("schedule-independence", "cli-two-broken-modules", "buf %s of a workspace in which two modules do not compile succeeded", command)
+			return
+		}
+		if k == 0 {
+			first = text
+		} else if text != first {
+			m.violate("output-identical", "cli-two-broken-modules|"+command, "buf %s on a workspace with two modules that do not compile printed something else with %d workers than with 1: %s", command, par, firstDiff(first, text))
+		}
+	}
+	m.s.Probe("cli-two-broken-modules")
+}
+
+// rootOf: which of the two roots of a v1beta1 module holds the file or directory (by its top-level directory).
+func rootOf(p string) string {
+	if top := strings.SplitN(p, "/", 2)[0]; len(top)%2 == 1 {
+		return "r2"
+	}
+	return "r1"
+}
+
+// cliOnDisk is where a file or directory of a module (by import path) lives below the module's directory.
+func (m *bsim) cliOnDisk(mod int, p string) string {
+	if mod < len(m.cliRooted) && m.cliRooted[mod] {
+		return filepath.Join(rootOf(p), filepath.FromSlash(p))
+	}
+	return filepath.FromSlash(p)
 }
